@@ -7,7 +7,7 @@ WT=/tmp/mwt/$N.$$
 L=/tmp/mwt.$N.$$
 rm -rf "$WT"; git -C /repo worktree prune
 git -C /repo worktree add -q "$WT" HEAD || exit 2
-git -C "$WT" apply "$D" 2>/dev/null || (cd "$WT" && git checkout -q -- . && patch -p1 -s -N --fuzz=3 < "$D" >/dev/null) || { git -C /repo worktree remove --force "$WT"; echo "mutant=$N does not apply"; exit 2; }
+git -C "$WT" apply "$D" 2>/dev/null || { git -C /repo worktree remove --force "$WT"; echo "mutant=$N does not apply"; exit 2; }
 for id in "$@"; do
   J2M_REPO="$WT" /verif/check $id --tier quick > $L.$id.log 2>&1; rc=$?
   echo "mutant=$N check=$id exit=$rc $(grep -c '^VIOLATION' $L.$id.log) violation lines; $(grep '^VIOLATION' $L.$id.log | head -1)"
